@@ -465,23 +465,101 @@ def rule_offsets(ctx):
     for st in flow.stmts:
         if isinstance(st, ast.Assign) and isinstance(st.targets[0], ast.Name):
             defs[st.targets[0].id] = st
-    # unpack
-    un = [st for st in sb.body if isinstance(st, ast.Assign) and isinstance(st.targets[0], ast.Tuple) and norm(st.value) == sb.params[0]]
-    if not un:
-        raise AnalysisError("_spatial_search_bin does not unpack its argument")
-    names = [norm(e) for e in un[0].targets[0].elts]
-    # the producer prepends [self, max_distance, *bin_pair]
+    # hand-over from the producer (_bin_pairs) to the consumer (_spatial_search_bin): which formal of the consumer receives which
+    # field of the producer's tuple - whether the fields travel as `[self, max_distance, *bin_pair]` through map(), as an explicit
+    # list, or as separate positional arguments
     w = ctx.func(COL, "Collocator.spatial_search_with_temporal_binning")
-    pre = None
-    for n in walk_no_nested(w.node):
-        if isinstance(n, ast.List) and n.elts and isinstance(n.elts[-1], ast.Starred):
-            pre = len(n.elts) - 1
-    if pre is None:
-        raise AnalysisError("argument list [self, max_distance, *bin_pair] not found")
-    got = names[pre:]
-    ctx.ob("Collocator._bin_pairs.pack", len(got) == 4, "packs %s; unpacked as %s (after %d leading arguments)" % (packed, got, pre),
-           "four fields, same order", node=rets[0], func=bp)
-    if len(got) != 4:
+    wflow = Flow(w)
+    un = [st for st in sb.body if isinstance(st, ast.Assign) and isinstance(st.targets[0], ast.Tuple) and len(sb.params) == 1 and norm(st.value) == sb.params[0]]
+    if un:
+        formals = [norm(e) for e in un[0].targets[0].elts]
+        packed_arg = True
+    else:
+        formals = list(sb.params)
+        packed_arg = False
+
+    def bp_call_of(e, at, depth=0):
+        """the _bin_pairs(...) call an expression denotes one result of (directly, through a temporary, or as the variable of a
+        comprehension / generator over such calls)"""
+        if depth > 4:
+            return None
+        if isinstance(e, ast.Call) and (dotted(e.func) or "").split(".")[-1] == "_bin_pairs":
+            return e
+        if isinstance(e, ast.Name):
+            from ..flow import _comprehension_binding
+            cb = _comprehension_binding(e)
+            if cb is not None:
+                it = wflow.resolve(cb, at=at, depth=2)
+                if isinstance(it, (ast.GeneratorExp, ast.ListComp)):
+                    return bp_call_of(it.elt, it, depth + 1)
+                return None
+            r_ = wflow.single_def_value(e.id, at)
+            if r_ is not None:
+                return bp_call_of(r_[0], r_[1], depth + 1)
+        return None
+
+    def sources(actuals, at):
+        out = []
+        for a_ in actuals:
+            if isinstance(a_, ast.Starred):
+                c_ = bp_call_of(a_.value, at)
+                if c_ is None:
+                    raise AnalysisError("spatial_search_with_temporal_binning: `*%s` is not the result of _bin_pairs" % norm(a_.value))
+                out += [("bp", k_) for k_ in range(4)]
+                continue
+            if isinstance(a_, ast.Name):
+                if a_.id == "self":
+                    out.append(("self",))
+                    continue
+                if a_.id in w.params and wflow.defs(a_.id, at) == ["param"]:
+                    out.append(("param", a_.id))
+                    continue
+                # a name unpacked from the tuple returned by _bin_pairs
+                hit = None
+                for d_ in wflow.defs(a_.id, at):
+                    if isinstance(d_, ast.Assign) and isinstance(d_.targets[0], ast.Tuple) and bp_call_of(d_.value, d_) is not None:
+                        idx_ = [i_ for i_, e_ in enumerate(d_.targets[0].elts) if isinstance(e_, ast.Name) and e_.id == a_.id]
+                        if len(idx_) == 1:
+                            hit = ("bp", idx_[0])
+                    elif isinstance(d_, (ast.For,)):
+                        # the loop's own chunk, handed to _bin_pairs as its chunk argument: the producer returns it unchanged as field 1
+                        for c_ in calls_in(d_, "_bin_pairs"):
+                            if len(c_.args) > 1 and norm(c_.args[1]) == a_.id:
+                                hit = ("bp", 1)
+                out.append(hit if hit is not None else ("other", a_.id))
+                continue
+            raise AnalysisError("spatial_search_with_temporal_binning: argument %s of _spatial_search_bin not understood" % norm(a_)[:60])
+        return out
+    actuals = at_ = None
+    for c_ in calls_in(w.node):
+        d_ = (dotted(c_.func) or "")
+        if d_.split(".")[-1] == "_spatial_search_bin":
+            at_ = c_
+            if packed_arg:
+                if len(c_.args) != 1 or not isinstance(c_.args[0], (ast.List, ast.Tuple)):
+                    raise AnalysisError("spatial_search_with_temporal_binning: _spatial_search_bin is not called with an argument list")
+                actuals = list(c_.args[0].elts)
+            else:
+                actuals = ([ast.Name(id="self", ctx=ast.Load())] if (isinstance(c_.func, ast.Attribute) and norm(c_.func.value) == "self" and not sb.is_static) else []) + list(c_.args)
+        elif d_ == "map" and len(c_.args) == 2 and (dotted(c_.args[0]) or "").split(".")[-1] == "_spatial_search_bin":
+            it = wflow.resolve(c_.args[1], at=c_, depth=2)
+            if not (isinstance(it, (ast.GeneratorExp, ast.ListComp)) and isinstance(it.elt, (ast.List, ast.Tuple))):
+                raise AnalysisError("argument list [self, max_distance, *bin_pair] not found")
+            actuals, at_ = list(it.elt.elts), it.elt
+    if actuals is None:
+        raise AnalysisError("spatial_search_with_temporal_binning: the call of _spatial_search_bin was not found")
+    src = sources(actuals, at_)
+    if len(src) != len(formals):
+        ctx.ob("Collocator._bin_pairs.pack", False, "packs %s; handed over as %d values to %d formals %s" % (packed, len(src), len(formals), formals),
+               "four fields, same order", node=rets[0], func=bp)
+        return
+    got = [None] * 4
+    for nm_, s_ in zip(formals, src):
+        if s_[0] == "bp":
+            got[s_[1]] = nm_ if got[s_[1]] is None else got[s_[1]] + "+" + nm_
+    ctx.ob("Collocator._bin_pairs.pack", all(g_ is not None and "+" not in g_ for g_ in got), "packs %s; received as %s" % (packed, got),
+           "four fields, each received by one formal of _spatial_search_bin", node=rets[0], func=bp)
+    if not all(g_ is not None and "+" not in g_ for g_ in got):
         return
     o1, d1, o2, d2 = got
     # roles in the consumer: spatial_search(data1 lat, lon, data2 lat, lon); pairs[0] += o1; pairs[1] += o2
